@@ -170,7 +170,7 @@ def run_check(mod, ctx):
                 mod.ID, k["what"], k["id"], len(vs), jdump(vs[0]["case"])[:200]))
             continue
         exit_code = 1
-        vdir = os.path.join(VERIF, "violations", mod.ID)
+        vdir = os.path.join(os.environ.get("VERIF_VIOLATIONS_DIR") or os.path.join(VERIF, "violations"), mod.ID)
         os.makedirs(vdir, exist_ok=True)
         reported += 1
         if reported > 12:
@@ -266,6 +266,8 @@ def write_evidence(mod, ctx, plan, merged, groups, open_by_sig, wall, rnd):
         "violations": sum(len(v) for s, v in groups.items() if s not in open_by_sig),
         "known_findings_seen": {s: len(v) for s, v in groups.items() if s in open_by_sig},
     }
+    if os.environ.get("VERIF_NO_EVIDENCE"):
+        return
     os.makedirs(os.path.join(VERIF, "evidence"), exist_ok=True)
     path = os.path.join(VERIF, "evidence", mod.ID + ".json")
     tmp = path + ".tmp"
